@@ -267,6 +267,16 @@ func c18Ops(val c18Value) []c18Op {
 		if m.Type.NumIn() == 1 {
 			fn := rv.Method(i)
 			ops = append(ops, c18Op{m.Name, func() string { return renderOuts(fn.Call(nil)) }})
+			// an accessor whose documentation promises a copy: the goroutine that called it goes on to overwrite what
+			// it was handed (bytes, and whole elements of element slices) - its own copy, by the documentation
+			if copyDocumented()[adapt.TypeName(t)+"."+m.Name] && m.Type.NumOut() > 0 {
+				ops = append(ops, c18Op{m.Name + "+caller-overwrites-the-returned-copy", func() string {
+					out := fn.Call(nil)
+					s := renderOuts(out)
+					snap.ScribbleValues(out)
+					return s
+				}})
+			}
 			continue
 		}
 		if m.Name == "DecryptInnerData" && m.Type.NumIn() == 3 {
